@@ -3,7 +3,7 @@
    mentioned variable, new identifiers are fresh).  ONLY statements; every proof is
    `exact <lemma>`.  Model: coq/Vars.v; lemmas: VarsLists/VarsFacts/VarsBip/VarsComb/VarsHistory. *)
 From Coq Require Import ZArith List Bool String.
-From Cnfgen Require Import Sem Comb Vars VarsFacts VarsBip VarsComb VarsHistory.
+From Cnfgen Require Import Sem Comb Vars VarsFacts VarsBip VarsComb VarsHistory VarsPatterns.
 Import ListNotations.
 Open Scope Z_scope.
 
@@ -75,6 +75,14 @@ Theorem C11_to_id_rejects_outside : forall off s, 0 <= off -> shape_wf s -> fora
   ~ In (canon s i) (indices s) -> to_id off s i = None.
 Proof. exact w_to_id_rejects. Qed.
 Print Assumptions C11_to_id_rejects_outside.
+
+(* an index pattern with wildcards (None) selects the order-preserving sub-enumeration of the
+   matching legal indices (positional matching; a simple graph ignores the order of the end
+   points and one given vertex selects its incident edges); None = the code raises ValueError *)
+Theorem C11_pattern_is_sub_enumeration : forall s pat l, shape_wf s -> pattern_indices s pat = Some l ->
+  l = filter (pat_matches s pat) (indices s).
+Proof. exact pattern_is_filter. Qed.
+Print Assumptions C11_pattern_is_sub_enumeration.
 
 (* closed forms used by the family models *)
 Theorem C11_block2_row_major : forall off n m i j, 1 <= i <= n -> 1 <= j <= m ->
@@ -165,6 +173,8 @@ Example C11_nonvacuous :
   to_index 0 (BinMap 10 13) (-41) = None /\ to_index 10 (BinMap 10 13) (-18) = Some [2; 0] /\
   to_id 0 (GraphEdges [[2; 3]; [1; 3; 4]; [1; 2]; [2]]) [3; 1] = Some 2 /\
   indices (Words WPerm 3 2) = [[1; 2]; [1; 3]; [2; 1]; [2; 3]; [3; 1]; [3; 2]] /\
+  pattern_indices (GraphEdges [[2; 3]; [1; 3; 4]; [1; 2]; [2]]) [Some 2; None] = Some [[1; 2]; [2; 3]; [2; 4]] /\
+  pattern_indices (Block [2; 3]) [None; Some 4] = None /\
   singles_tight 0 (groups (run as_is init_state [NewGroup (mkgroup Single ["X"%string]); NewGroup (mkgroup (Block [2; 3]) ["z"; ","; ""]%string)])) = true.
 Proof.
   split; [split; [discriminate|repeat constructor; discriminate]|].
